@@ -51,6 +51,11 @@ func (g *Gen) inferMods(fn *ssa.Function, stack map[*ssa.Function]bool) map[stri
 				if _, ok := g.cs.Ghosts["chan_log"]; ok {
 					out["ghost.chan_log"] = true
 				}
+				for _, gn := range []string{"chan_sobj", "chan_soff", "chan_slen"} {
+					if _, ok := g.cs.Ghosts[gn]; ok {
+						out["ghost."+gn] = true
+					}
+				}
 			case *ssa.Call:
 				add(g.callMods(&v.Call, stack))
 			case *ssa.Defer:
